@@ -185,6 +185,7 @@ def run(ctx):
             ctx.disagreements_checked += 1
             ctx.tie_broken("correspondence: the model does not round-trip a value the implementation round-trips",
                            "%s\nimpl: %s\nmodel: %s" % (line[:3000], li[:1500], lm[:1500]))
+    nreq = requests_stream(ctx, exe, thorough)
     minph = min(len(v) for v in phases.values())
     ntypes = len(set(ty for ty, _ in phases))
     ctx.extra["phases"] = {"pairs (type, api)": len(phases), "min distinct prefix phases mod 8 per pair": minph,
@@ -196,18 +197,98 @@ def run(ctx):
                 "{typed: %d cases, param: %d cases} plus one value (thorough: 4) wrapped in a params::Variant that is written and read through the typed API; the prefix is drawn uniformly from 0..15 independently of the API (a random permutation of "
                 "the 8 phases taken in turn, plus 0 or 8), so every (type, API) pair saw at least %d distinct phases mod 8 in this run; values "
                 "boundary-biased and encodable. Stream 2 (big, %d cases): length fields >= 64 KiB, strings of 255..70000 bytes, 64..100 "
-                "containers in one array/dict, nesting at the limits, typed in both byte orders plus one Param flavour. "
+                "containers in one array/dict, nesting at the limits, typed in both byte orders plus one Param flavour. Stream 3 (requests, %d cases): "
+                "get::<T>() on a body written as another Rust type S - the same type in another flavour is read, another signature is answered with "
+                "WrongSignature and nothing is consumed (in particular the crate's two Variant types asked for on bodies without a variant). "
                 "non-trivial = prefix > 0 or the type has a container or text leaf; distinct = distinct case lines"
-                % (ntypes, len(wg.catalogue()), len(wg.catalogue_marshal_only()), 48 if thorough else 6, 24 if thorough else 4, minph, nbig))
+                % (ntypes, len(wg.catalogue()), len(wg.catalogue_marshal_only()), 48 if thorough else 6, 24 if thorough else 4, minph, nbig, nreq))
     want = 8 if thorough else 2
     if minph < want:
         ctx.tie_broken("generator: a (type, API) pair saw fewer than %d prefix phases" % want, str(minph))
+
+
+def requests_stream(ctx, exe, thorough):
+    """get::<T>() on a body that holds a value written as another Rust type S. Same D-Bus type and same variant contents (only the
+    flavour differs: Vec / Cow / [E; N], v / V ..): the value is read. Another D-Bus type: Signature::has_sig of T must say no -
+    WrongSignature, nothing consumed - in particular for the crate's two Variant types asked for on a body that holds no variant.
+    The predicate comes from the property text (reading needs the matching type); no model run in this stream."""
+    r = ctx.sub_rng("c01-requests")
+    cat = [ty for ty in wg.catalogue() if not wg.count_leaves(wg.parse_ext(ty), "h")]
+    by_sig, by_plain = {}, {}
+    for ty in cat:
+        by_sig.setdefault(wg.erased(wg.parse_ext(ty)), []).append(ty)
+        by_plain.setdefault(wg.plain_name(ty), []).append(ty)
+    asked = [ty for ty in cat if "v[" in ty or "V[" in ty] + r.sample(cat, 300 if thorough else 80)
+    pairs = []
+    for T in asked:
+        t = wg.parse_ext(T)
+        srcs = [r.choice(by_plain[wg.plain_name(T)]), r.choice(cat), r.choice(["y", "u", "s", "g", "t", "ay", "(y)", "a{sy}"])]
+        if t[0] == "v" and wg.erased(t[1]) in by_sig:
+            srcs.append(r.choice(by_sig[wg.erased(t[1])]))            # the variant's content, bare
+        for nm in wg.near_misses(t)[:2]:
+            if wg.erased(nm) in by_sig:
+                srcs.append(r.choice(by_sig[wg.erased(nm)]))
+        srcs += by_sig.get(wg.erased(t), [])[:3]                       # same D-Bus type (variants may hold something else)
+        for S in srcs:
+            pairs.append((S, T, r.choice(["le", "be"]), r.choice(PLACES)))
+    first = []
+    for S, T, bo, place in pairs:
+        toks, _ = wg.gen_value(r, wg.parse_ext(S))
+        first.append("MT %s %s 0 %s" % (S, bo, " ".join(toks)))
+    ok, out1, err = vlib.par_run_lines(exe, [], first, robust=True)
+    if not ok:
+        ctx.tie_broken("wire harness crashed (requests stream)", err)
+        return 0
+    second = []
+    for (S, T, bo, place), o in zip(pairs, out1):
+        f = fields(o)
+        second.append("GT%s %s %s 0 %s %s" % (place, T, bo, f.get("sig", "-"), f.get("buf", "-")) if f["res"] == "ok" else "CAT")
+    ok, out2, err = vlib.par_run_lines(exe, [], second, robust=True)
+    if not ok:
+        ctx.tie_broken("wire harness crashed (requests stream)", err)
+        return 0
+    n = 0
+    for (S, T, bo, place), l1, o1, l2, o2 in zip(pairs, first, out1, second, out2):
+        if l2 == "CAT":
+            continue
+        n += 1
+        same_type = wg.plain_name(S) == wg.plain_name(T)
+        same_sig = wg.erased(wg.parse_ext(S)) == wg.erased(wg.parse_ext(T))
+        ctx.case(("request", l2), nontrivial=True, sample={"written": l1[:120], "asked": l2[:120], "got": o2[:120]} if n % 499 == 1 else None)
+        ctx.count("request:" + ("same type, other flavour" if same_type else "same signature, other variant content" if same_sig else "other signature"))
+        parts = o2.split(" ")
+        res = parts[0]
+        info = dict(p.split("=", 1) for p in parts if "=" in p and p.split("=")[0] in ("before", "left"))
+        val = " ".join(p for p in parts[1:] if not (p.startswith("before=") or p.startswith("left=")))
+        why = None
+        if res not in ("ok", "wrongsig", "err", "end"):
+            why = "get::<T>() did not return a value or an error (%s)" % o2[:60]
+        elif same_type:
+            if res != "ok" or wg.canon(val) != wg.canon(fields(o1).get("val", "")) or info.get("left") != "0":
+                why = "a value written as one Rust type could not be read back as another Rust type of the same D-Bus type"
+        elif res == "ok" and not (same_sig and wg.canon(val) == wg.canon(fields(o1).get("val", "")) and info.get("left") == "0"):
+            # (same signature, other variant contents: fine as long as no variant is in the value - an empty array of variants)
+            why = "get::<T>() returned a value from a body that holds another type"
+        elif not same_sig and (res != "wrongsig" or info.get("left") != info.get("before")):
+            why = "asking for a type that does not match the body's signature is not answered with WrongSignature / consumes something"
+        if why:
+            ctx.disagreements_checked += 1
+            ctx.violation(why, {"line": l2, "written": l1, "impl": o2, "stream": "requests"})
+    return n
 
 
 def replay(ctx, body):
     d = body["data"]
     exe = vlib.harness_build(["wire"])["wire"]
     line = d["line"]
+    if d.get("stream") == "requests":
+        _, out, _ = vlib.run_lines(exe, [], [line])
+        print("written:", d["written"][:300])
+        print("asked  :", line[:300])
+        print("now    :", out[0][:300])
+        print("then   :", d["impl"][:300])
+        print("REPRODUCED" if out[0] == d["impl"] else "not reproduced")
+        return 1 if out[0] == d["impl"] else 0
     if "...(" in line and d.get("stream") == "big":
         # the line was too long to store: regenerate the big stream from the seed and take the one with this beginning
         head = line.split(" ...(")[0]
